@@ -101,6 +101,11 @@ func (x *tr) lookupAct(e *ast.CallExpr) (act, bool) {
 	if a, ok := x.t.Acts[src(x.p.fset, e.Fun)]; ok {
 		return a, true
 	}
+	// a call of the value variable of the enclosing range loop itself (a slice of functions): key "<range>"
+	if id, ok := e.Fun.(*ast.Ident); ok && id.Name != "" && id.Name == x.vars[keyRange] {
+		a, ok := x.t.Acts["<range>"]
+		return a, ok
+	}
 	// a method of the value variable of the enclosing range loop: key "<range>.Method"
 	if se, ok := e.Fun.(*ast.SelectorExpr); ok {
 		if id, ok := se.X.(*ast.Ident); ok && id.Name != "" && id.Name == x.vars[keyRange] {
